@@ -68,7 +68,8 @@ package reghttp
 //@   name UpdateRequest/request-loop
 //@   in ~/internal/reghttp
 //@   infunc Resp\)\.next
-//@   requires not-in-clear-text-to-a-tls-host: req.URL.Scheme == "https" || caller.h.config.TLS == config.TLSDisabled
+//   (stated over the URL the request was built from: u.String() is what http.NewRequest parsed)
+//@   requires not-in-clear-text-to-a-tls-host: caller.u.Scheme == "https" || caller.h.config.TLS == config.TLSDisabled
 //@ callsite (*~/internal/auth.Auth).UpdateRequest(req)
 //@   prop C11
 //@   name UpdateRequest/redirect
